@@ -909,7 +909,7 @@ func main() {
 	nGo, nAsm, nZlib, nBig, nRobust, nFunc, nInfl := 40, 70, 30, 4, 1500, 700, 500
 	bigLimits := 30
 	if r.Thorough {
-		nGo, nAsm, nZlib, nBig, nRobust, nFunc, nInfl = 900, 2600, 700, 60, 60000, 20000, 12000
+		nGo, nAsm, nZlib, nBig, nRobust, nFunc, nInfl = 250, 700, 200, 30, 40000, 12000, 8000
 		bigLimits = 120
 	}
 
